@@ -1,5 +1,6 @@
 #!/bin/bash
-# seedrows.sh <check> [<check> …] — re-runs the rows of seeded/RESULTS.md that belong to the given checks (after a
+# seedrows.sh <check|change> [<check|change> …] — re-runs the rows of seeded/RESULTS.md that belong to the given checks or
+# changes (rows that do not exist yet are appended) (after a
 # check was strengthened) on the scratch worktree $WT and replaces those rows in place; the header gets a note.
 WT=${WT:-/tmp/wt}; export WT
 cd /verif; OUT=seeded/RESULTS.md; TMP=$(mktemp)
@@ -7,7 +8,7 @@ while read -r key checks; do
   [ -z "$key" ] && continue
   for c in $checks; do
     for want in "$@"; do
-      [ "$c" = "$want" ] || continue
+      [ "$c" = "$want" ] || [ "$key" = "$want" ] || continue
       ./seedtest_wt.sh seeded/$key/patch.diff quick $c > $TMP.one 2>&1
       row=$(sed -E 's/^([A-Za-z0-9-]+)-patch (C[0-9]+) ([A-Za-z]+) \(rc=[0-9]+, ([0-9]+)s\) ?(.*)$/| \1 | \2 | \3 (\4 s) | \5 |/' $TMP.one | sed 's/VIOLATION C[0-9][0-9] //' | cut -c1-420 | head -1)
       echo "$row"
